@@ -557,7 +557,16 @@ class FunctionPlugin(PrimitivePlugin):
             )
             for arg in args
         ]
-        out_aval = jax.eval_shape(self._orig_fn, *specs, **kwargs)
+        static_kwargs = {
+            k: v
+            for k, v in kwargs.items()
+            if not isinstance(v, (jax.ShapeDtypeStruct, jax.Array, np.ndarray))
+            and not hasattr(v, "aval")
+        }
+        traced_kwargs = {k: v for k, v in kwargs.items() if k not in static_kwargs}
+        out_aval = jax.eval_shape(
+            functools.partial(self._orig_fn, **static_kwargs), *specs, **traced_kwargs
+        )
         if isinstance(out_aval, jax.ShapeDtypeStruct):
             out_aval = self._aval_to_shaped_array(out_aval)
         elif isinstance(out_aval, tuple):
@@ -861,6 +870,9 @@ class FunctionPlugin(PrimitivePlugin):
             tracer_map = getattr(frame, "tracer_to_var", None)
             getter = getattr(tracer_map, "get", None)
             var = getter(id(tracer)) if callable(getter) else None
+            if var is None:
+                candidate = getattr(tracer, "val", None)
+                var = candidate if isinstance(candidate, Var) else None
             if var is None:
                 return None
             const_map = getattr(frame, "constvar_to_val", None)
